@@ -6,9 +6,40 @@ EL 0/1/2 and ED 0/1/2 with background-colour-erase, SGR (mc.sgr.State), DECSC/DE
 ?12 (recorded), ?1049 alternate screen, xterm window ops 22;0;0t / 23;0;0t (recorded), DSR 6n (answers through a callback).
 Anything else raises TermError: a library that starts emitting an unknown sequence must not pass by being ignored.
 """
+import unicodedata
+
 from mc import sgr
 
 BLANK = (" ", ())
+
+
+def char_width(ch):
+    """Columns a character occupies: 0 for combining marks and format characters (ZWJ, RLM ...), 2 for East Asian wide / fullwidth."""
+    if unicodedata.combining(ch) or unicodedata.category(ch) in ("Mn", "Me", "Cf"):
+        return 0
+    if unicodedata.east_asian_width(ch) in ("W", "F"):
+        return 2
+    return 1
+
+
+def expand_cells(cells_):
+    """A row of (char, atts) cells -> one entry per terminal column: a double-width character owns two columns (the second holds ""),
+    a zero-width character is attached to the cell before it."""
+    out = []
+    for ch, att in cells_:
+        wdt = char_width(ch)
+        if wdt == 0:
+            if out:
+                k = len(out) - 1
+                if out[k][0] == "" and k > 0:
+                    k -= 1
+                out[k] = (out[k][0] + ch, out[k][1])
+        elif wdt == 2:
+            out.append((ch, att))
+            out.append(("", att))
+        else:
+            out.append((ch, att))
+    return out
 
 
 class TermError(Exception):
@@ -82,10 +113,46 @@ class Term:
             self.r += 1
         self.wrap = False
 
+    def _damage(self, x):
+        """Column x is about to be overwritten / erased: the other half of a double-width character there becomes a blank."""
+        row = self.grid[self.r]
+        if not (0 <= x < self.w):
+            return
+        if row[x][0] == "" and x > 0:
+            row[x - 1] = (" ", row[x - 1][1])
+        if x + 1 < self.w and row[x + 1][0] == "" and row[x][0] != "":
+            row[x + 1] = (" ", row[x + 1][1])
+
     def _put(self, ch):
+        wdt = char_width(ch)
+        if wdt == 0:
+            # a zero-width character joins the cell before the cursor (the last written cell when a wrap is pending)
+            x = self.c if self.wrap else self.c - 1
+            row = self.grid[self.r]
+            if x >= 0:
+                if row[x][0] == "" and x > 0:
+                    x -= 1
+                row[x] = (row[x][0] + ch, row[x][1])
+            return
         if self.wrap:
             self.c = 0
             self._linefeed()
+        elif wdt == 2 and self.c == self.w - 1 and self.w >= 2:
+            # a double-width character does not fit in the last column: it wraps as a whole
+            self.c = 0
+            self._linefeed()
+        if wdt == 2 and self.w >= 2:
+            self._damage(self.c)
+            self._damage(self.c + 1)
+            self.grid[self.r][self.c] = (ch, self.st.atts())
+            self.grid[self.r][self.c + 1] = ("", self.st.atts())
+            if self.c + 2 >= self.w:
+                self.c = self.w - 1
+                self.wrap = True
+            else:
+                self.c += 2
+            return
+        self._damage(self.c)
         self.grid[self.r][self.c] = (ch, self.st.atts())
         if self.c == self.w - 1:
             self.wrap = True
@@ -121,10 +188,6 @@ class Term:
             elif ch < " " or ch == "\x7f" or "\x80" <= ch <= "\x9f":
                 raise TermError("control character %r not modelled" % ch)
             else:
-                import unicodedata
-
-                if unicodedata.east_asian_width(ch) in ("W", "F") or unicodedata.combining(ch):
-                    raise TermError("character %r is not single-width (outside the properties' scope)" % ch)
                 self._put(ch)
 
     def _escape(self, s, i):
@@ -220,9 +283,11 @@ class Term:
             e = self.erase_cell()
             row = self.grid[self.r]
             if p1 == 0:
+                self._damage(self.c)
                 for x in range(self.c, self.w):
                     row[x] = e
             elif p1 == 1:
+                self._damage(self.c)
                 for x in range(0, self.c + 1):
                     row[x] = e
             elif p1 == 2:
@@ -234,6 +299,7 @@ class Term:
             e = self.erase_cell()
             g = self.grid
             if p1 == 0:
+                self._damage(self.c)
                 for x in range(self.c, self.w):
                     g[self.r][x] = e
                 for y in range(self.r + 1, self.h):
